@@ -340,6 +340,8 @@ func c14Run(line string) string {
 		return c14Pair(par)
 	case "zero":
 		return c14Zero(par)
+	case "two":
+		return c14Two(par)
 	case "donot":
 		v, _ := strconv.Atoi(par["v"])
 		var c fpgo.CorDef[int]
@@ -457,6 +459,12 @@ func c14Gen(tier string, rng *rand.Rand, emit func(string)) map[string]interface
 	for _, ty := range []string{"int", "any", "ptr"} {
 		e("zero ty=" + ty)
 	}
+	// a caller whose first target finished under it continues with a second, healthy target (c14_two.go)
+	e("two mode=directed n2=1")
+	e("two mode=directed n2=3")
+	e("two mode=directed n2=6")
+	e("two mode=stress callers=8 n2=3 late=50 seed=12")
+	e("two mode=stress callers=7 n2=2 late=30 seed=13")
 	e("donot v=0")
 	e("donot v=41")
 	e("donotyf v=5")
@@ -489,6 +497,9 @@ func c14Gen(tier string, rng *rand.Rand, emit func(string)) map[string]interface
 		extra := ""
 		if callers >= 7 && rng.Intn(2) == 0 {
 			extra = fmt.Sprintf(" late=%d", 60+rng.Intn(120))
+		}
+		if k%10 == 9 {
+			e(fmt.Sprintf("two mode=stress callers=%d n2=%d late=%d seed=%d", 7+rng.Intn(2), 1+rng.Intn(4), 20+rng.Intn(60), rng.Intn(1<<30)))
 		}
 		e(fmt.Sprintf("pair ty=%s shape=%s reqs=%s startval=%s seed=%d jitter=%d park=%d%s", []string{"int", "any", "ptr"}[rng.Intn(3)], shapes[rng.Intn(3)], strings.Join(rs, ","), svs, rng.Intn(1<<30), rng.Intn(3), rng.Intn(2), extra))
 	}
